@@ -727,6 +727,12 @@ pub trait StoreFor<T: Storable>: Configurable + private::StoreCallbacks<T> {
             // item has no internal id yet, i.e. it is unbound
             // we generate an id and bind it now
             let intid = self.next_handle();
+            if intid.as_usize() != self.store().len() {
+                //the handle type can not number any more items (the handle would wrap around and denote an existing item)
+                return Err(StamError::HandleError(
+                    "Store is full: the handle type can not number any more items",
+                ));
+            }
 
             // Bind an item to the store *PRIOR* to it being actually added:
 
